@@ -49,8 +49,9 @@ RULES = {
 }
 
 
-def jobs_for(ctx, classes, mult=1):
+def jobs_for(ctx, classes, mult=1, extra_gen=None):
     jobs = []
+    extra_gen = extra_gen or {}
     for cls in classes:
         for name, h in RULES.items():
             for cfg in ({"track": False, "reuse": False}, {"track": False, "reuse": True}):
@@ -59,13 +60,13 @@ def jobs_for(ctx, classes, mult=1):
         lens = ctx.pick([12, 20, 30], [30, 60, 100])
         for i in range(n):
             jobs.append({"cls": cls, "cfg": {"track": cls != "SolverReplacement" and i % 6 == 0, "reuse": i % 3 == 0},
-                         "len": lens[i % len(lens)], "gen": {"weights": WEIGHTS, "max_solvers": 5}})
+                         "len": lens[i % len(lens)], "gen": dict({"weights": WEIGHTS, "max_solvers": 5}, **extra_gen)})
         # trees that start from an EMPTY solver: branched before anything was added, the first constraint of one solver is
         # `variable == constant`, its siblings get other constraints on that variable and are asked for everything; random tail in
         # which first constraints keep being equalities half of the time
         for i in range(ctx.pick(14, 100) * mult):
             jobs.append({"cls": cls, "cfg": {"track": False, "reuse": i % 3 == 0}, "len": ctx.pick(8, 30),
-                         "gen": {"shape": "empty-branch", "weights": WEIGHTS, "max_solvers": 5, "first_eq": 0.5}})
+                         "gen": dict({"shape": "empty-branch", "weights": WEIGHTS, "max_solvers": 5, "first_eq": 0.5}, **extra_gen)})
     return jobs
 
 
@@ -154,7 +155,8 @@ def run(ctx):
     for mm in m["mismatch"][:3]:
         ctx.tie_broken("corr:%s.%s" % (mm["cls"], mm["op"].get("op", "?")),
                        "%s differs after %s (%s); model=%s real=%s" % ("/".join(mm["differs"]), mm["op"], mm["cfg"], mm["model"][:400], mm["real"][:400]))
-    m2 = SC.run_jobs(ctx, jobs_for(ctx, OTHERS), workers, corr=False, chunk_size=ctx.pick(10, 20))
+    # (oracle only: solution() may also ask about a symbolic value, which the recorder of the model correspondence does not take)
+    m2 = SC.run_jobs(ctx, jobs_for(ctx, OTHERS, extra_gen={"symv": 0.35}), workers, corr=False, chunk_size=ctx.pick(10, 20))
     SC.merge_cov(ctx, m2, "other-classes")
     fails += m2["fails"]
     m4 = SC.run_jobs(ctx, handoff_jobs(ctx, MODELLED[:2] + OTHERS, mult=3 if ctx.broken else 1), workers, corr=False, chunk_size=ctx.pick(8, 16))
